@@ -46,6 +46,21 @@ SPECS = {
             "coprimality witnesses come from the harness's own extended Euclid; the specification verifies s*n + t*d = 1",
         ],
     },
+    "sieve": {
+        "module": "SieveTrace",
+        "release": True,
+        "exhaustive": True,
+        "rule": ("I->S: Sieve::new(N) for EVERY N in 0..1500 (thorough 0..4000): the complete min_prime and is_prime tables and the prime "
+                 "list compared by TLC with the tabulated arithmetic definitions (least divisor >= 2 by trial division); factorize(n) "
+                 "through the real iterator for all n <= N at every 97th limit and for the top three n at every limit; N = 1e6 "
+                 "(thorough also 1e7): 2.6k-6k sampled n (primes, prime squares +-1, products of two large primes, the last 100 entries, "
+                 "random) checked by trial division with the tabulated primes, pi(N) and sampled consecutive prime pairs (no prime "
+                 "between). Non-trivial = every table entry."),
+        "assumptions": [
+            "limits 1e6 / 1e7 are sampled, not compared element by element (beyond TLC's throughput); pi(1e6) = 78498 and pi(1e7) = 664579 "
+            "are taken as known constants",
+        ],
+    },
 }
 
 
